@@ -129,27 +129,22 @@ theorem foldNum_type {f : Num → Num → Except Err Num} {init acc : Num} {pre 
   rw [List.foldlM_append, hpre]
   simp only [List.foldlM_cons, expectNumber_err hx]; rfl
 
-theorem cmpNum_go_type {op : Num → Num → Bool} : ∀ {ns : List Num} {last : Num} {x : Value} {post : List Value},
-    Num.cmpChain op (last :: ns) = true → ¬ IsNum x →
-    cmpNum.go op last (ns.map Value.num ++ x :: post) = .error .type
-  | [], last, x, post, _, hx => by
-    show cmpNum.go op last (x :: post) = _
+theorem cmpNum_go_type {op : Num → Num → Bool} : ∀ {ns : List Num} {last : Num} {acc : Bool} {x : Value}
+    {post : List Value}, ¬ IsNum x →
+    cmpNum.go op last acc (ns.map Value.num ++ x :: post) = .error .type
+  | [], last, acc, x, post, hx => by
+    show cmpNum.go op last acc (x :: post) = _
     rw [cmpNum.go, expectNumber_err hx]; rfl
-  | n :: ns, last, x, post, hc, hx => by
-    show cmpNum.go op last (.num n :: (ns.map Value.num ++ x :: post)) = _
-    rw [Num.cmpChain] at hc
-    split at hc
-    · rename_i hop
-      rw [cmpNum.go]
-      show (if op last n = true then cmpNum.go op n _ else _) = _
-      rw [if_pos hop]
-      exact cmpNum_go_type hc hx
-    · cases hc
+  | n :: ns, last, acc, x, post, hx => by
+    show cmpNum.go op last acc (.num n :: (ns.map Value.num ++ x :: post)) = _
+    rw [cmpNum.go]
+    show cmpNum.go op n (acc && op last n) _ = _
+    exact cmpNum_go_type hx
 
-/-- a comparison chain stops with a type error at the first argument that is not a number, if
-every adjacent pair of numbers before it was in order -/
+/-- a comparison chain stops with a type error at the first argument that is not a number, whether
+or not the adjacent pairs of numbers before it were in order: every argument is type-checked -/
 theorem cmpNum_type {op : Num → Num → Bool} {ns : List Num} {x : Value} {post : List Value}
-    (hc : Num.cmpChain op ns = true) (hx : ¬ IsNum x) :
+    (hx : ¬ IsNum x) :
     cmpNum op (ns.map Value.num ++ x :: post) = .error .type := by
   cases ns with
   | nil =>
@@ -158,7 +153,28 @@ theorem cmpNum_type {op : Num → Num → Bool} {ns : List Num} {x : Value} {pos
   | cons n ns =>
     show cmpNum op (.num n :: (ns.map Value.num ++ x :: post)) = _
     rw [cmpNum]
-    exact cmpNum_go_type hc hx
+    exact cmpNum_go_type hx
+
+theorem cmpNum_go_nums {op : Num → Num → Bool} : ∀ (ns : List Num) (last : Num) (acc : Bool),
+    cmpNum.go op last acc (ns.map Value.num) = .ok (acc && Num.cmpChain op (last :: ns))
+  | [], last, acc => by simp [cmpNum.go, Num.cmpChain]
+  | n :: ns, last, acc => by
+    show cmpNum.go op last acc (.num n :: ns.map Value.num) = _
+    rw [cmpNum.go]
+    show cmpNum.go op n (acc && op last n) _ = _
+    rw [cmpNum_go_nums ns n, Num.cmpChain]
+    cases acc <;> cases op last n <;> simp
+
+/-- on numbers only the chain is still the conjunction of the adjacent pairs -/
+theorem cmpNum_nums {op : Num → Num → Bool} (ns : List Num) :
+    cmpNum op (ns.map Value.num) = .ok (Num.cmpChain op ns) := by
+  cases ns with
+  | nil => rfl
+  | cons n ns =>
+    show cmpNum op (.num n :: ns.map Value.num) = _
+    rw [cmpNum]
+    show cmpNum.go op n true _ = _
+    rw [cmpNum_go_nums]; simp
 
 end Prim
 
